@@ -112,15 +112,18 @@ class Gen:
             return {"k": "ivec", "v": self.ivec()}
         return {"k": "fvec", "v": self.fvec()}
 
-    def item(self, points):
-        """an item with exactly `points` points"""
+    def item(self, points, plain=False):
+        """an item with exactly `points` points (plain: nothing whose printed form is not modelled)"""
         if points <= 1:
-            return self.atom()
+            a = self.atom()
+            while plain and a["k"] in ("float", "fvec"):
+                a = self.atom()
+            return a
         rest = points - 1
         kids = []
         while rest > 0:
             k = self.r.randint(1, rest)
-            kids.append(self.item(k))
+            kids.append(self.item(k, plain))
             rest -= k
         return {"k": "list", "v": kids}
 
